@@ -232,6 +232,14 @@ type cllWalk struct {
 	states []cllCS
 	fwds   []bool
 	quiet  bool // replaying a prefix: nothing is emitted
+	// fair runs: the round at the end of which the rollout was first seen terminal (-1: never), rounds run, and whether
+	// the run is a healthy one (no user event other than the first release, no API fault; crashes allowed)
+	terminalAt int
+	rounds     int
+	healthy    bool
+	fair       bool
+	ticks      int
+	releasedAt int
 	steps  int
 	// fwd: the history is inside the label set of the forward-rollout theorems (reconciles, workload progress,
 	// approvals, clock, crashes, faults, and new releases admitted only while the rollout is idle)
@@ -240,7 +248,7 @@ type cllWalk struct {
 
 func cllNewWalk(c *Ctx, sc clScenario) *cllWalk {
 	exOwnerUID = "none-yet"
-	w := &cllWalk{c: c, s: clNewSim(c, sc), sc: sc}
+	w := &cllWalk{c: c, s: clNewSim(c, sc), sc: sc, terminalAt: -1, releasedAt: -1}
 	w.states = append(w.states, cllCanon(w.s.cllJoint()))
 	return w
 }
@@ -311,6 +319,15 @@ func (w *cllWalk) do(label string) {
 		}
 		w.c.EmitAs("closedloop", "cstep", J{"scenario": w.sc, "hist": hist, "pre": pre, "label": emitLabel, "fwd": w.fwd}, impl)
 	}
+	if strings.HasPrefix(label, "release:") && w.releasedAt < 0 {
+		w.releasedAt = w.ticks
+	}
+	if label == "tick" {
+		w.ticks++
+		if w.releasedAt >= 0 && w.terminalAt < 0 && s.terminal() {
+			w.terminalAt = w.ticks - w.releasedAt
+		}
+	}
 	w.hist = append(w.hist, label)
 	w.states = append(w.states, post)
 	w.fwds = append(w.fwds, w.fwd)
@@ -359,25 +376,56 @@ func (w *cllWalk) trace() {
 		return
 	}
 	w.c.Done(0)
-	w.c.EmitAs("closedloop", "trace", J{"scenario": w.sc, "labels": w.hist, "states": w.states, "fwd": w.fwds}, nil)
+	w.c.EmitAs("closedloop", "trace", J{"scenario": w.sc, "labels": w.hist, "states": w.states, "fwd": w.fwds,
+		"fair": w.fair, "healthy": w.healthy, "terminalAt": w.terminalAt, "rounds": w.ticks, "steps": len(w.sc.Steps)}, nil)
 }
 
 var cllRound = []string{"ro", "br", "env", "approve", "tick"}
 
+// manualPause: the step the rollout is on has no pause duration (it waits for the user)
+func (w *cllWalk) manualPause() bool {
+	cs := w.s.cllJoint()
+	if cs.Ro == nil || cs.Ro.Sub == nil {
+		return true
+	}
+	i := cs.Ro.Sub.CurIdx - 1
+	if i < 0 || i >= len(cs.Ro.Steps) {
+		return true
+	}
+	return cs.Ro.Steps[i].Pause == "manual"
+}
+
 // fair walk: rounds of the healthy closed loop with user events / crashes / faults at chosen rounds
 func cllFair(c *Ctx, sc clScenario, events map[int]string, rounds int) *cllWalk {
 	w := cllNewWalk(c, sc)
+	w.healthy, w.fair = true, true
+	released, stopAt := false, -1
 	for r := 0; r < rounds; r++ {
 		if ev, ok := events[r]; ok {
 			for _, l := range strings.Split(ev, ",") {
+				if l != "crash" && !(l == "release:v2" && !released) {
+					w.healthy = false
+				}
+				if strings.HasPrefix(l, "release:") {
+					released = true
+				}
 				w.do(l)
 			}
 		}
 		for _, l := range cllRound {
+			if l == "approve" && !w.manualPause() {
+				continue // the user approves manual pauses only; a pause with a duration has to elapse by itself
+			}
 			w.do(l)
 			if w.s.panicked {
 				return w
 			}
+		}
+		if w.terminalAt >= 0 && stopAt < 0 {
+			stopAt = r + 2 // two more quiescent rounds
+		}
+		if stopAt >= 0 && r >= stopAt {
+			break
 		}
 	}
 	return w
@@ -458,7 +506,7 @@ func runClosedLoop(c *Ctx) {
 				at := 3 + c.Rng.Intn(8*len(sc.Steps)+4)
 				events[at] = pickS(c, "crash", "release:v3", "release:v1", "delete", "crash,release:v3", "fault-ro:1", "fault-br:0", "fault-br:1")
 			}
-			w := cllFair(c, sc, events, 12*len(sc.Steps)+16)
+			w := cllFair(c, sc, events, 20*(len(sc.Steps)+4)+3)
 			w.trace()
 			if c.Count >= budget {
 				break
@@ -480,6 +528,8 @@ func replayClosedLoop(c *Ctx, op string, raw json.RawMessage) {
 		Hist     []string   `json:"hist"`
 		Labels   []string   `json:"labels"`
 		Label    string     `json:"label"`
+		Fair     bool       `json:"fair"`
+		Healthy  bool       `json:"healthy"`
 	}
 	if err := json.Unmarshal(raw, &in); err != nil {
 		panic(err)
@@ -503,6 +553,7 @@ func replayClosedLoop(c *Ctx, op string, raw json.RawMessage) {
 			w.do(l)
 		}
 		w.quiet = false
+		w.fair, w.healthy = in.Fair, in.Healthy
 		w.trace()
 	case "proj":
 		// a projection line carries no history: nothing to re-run
